@@ -946,6 +946,9 @@ func suiteC19(c *Ctx) []Suite {
 					// variable names and ellipses are reused across messages on purpose
 					rr := rand.New(rand.NewSource(int64(i*7 + j%2)))
 					item := smlTemplate(rr, 0.3, false)
+					if c.R.Intn(6) == 0 {
+						item = &Node{Kind: "E"} // a header-only message
+					}
 					m := genSMLMsg(c.R, item)
 					var t string
 					if c.R.Intn(2) == 0 {
